@@ -24,6 +24,10 @@ type DocxOptions struct {
 	// names the body paragraph style (the same style later plain paragraphs
 	// use) — direct formatting on top of a non-heading style.
 	OutlineKeepsBodyStyle bool
+	// NSPrefix: namespace prefix the main document part binds to the
+	// WordprocessingML namespace instead of the customary "w" ("" = "w";
+	// any NCName is equally valid XML: Namespaces in XML 1.0 §3)
+	NSPrefix string
 }
 
 const (
@@ -129,6 +133,10 @@ func WriteDocx(d *logical.Doc, o DocxOptions) []byte {
 
 	document := XMLDecl + `<w:document xmlns:w="` + nsW + `" xmlns:r="` + nsR + `">` + w.nl + `<w:body>` + w.nl +
 		body.String() + sect + w.nl + `</w:body>` + w.nl + `</w:document>`
+
+	if o.NSPrefix != "" && o.NSPrefix != "w" {
+		document = renameNSPrefix(document, "w", o.NSPrefix)
+	}
 
 	if d.HasStyles {
 		docRels.WriteString(`<Relationship Id="rIdStyles" Type="http://schemas.openxmlformats.org/officeDocument/2006/relationships/styles" Target="styles.xml"/>`)
@@ -409,4 +417,34 @@ func DocxFeatures(d *logical.Doc) map[string]bool {
 		}
 	}
 	return m
+}
+
+// renameNSPrefix rewrites every use of the namespace prefix from inside the tags
+// of an XML text (element names, attribute names, the xmlns declaration); text
+// content is left alone.
+func renameNSPrefix(xml, from, to string) string {
+	var sb strings.Builder
+	for i := 0; i < len(xml); {
+		lt := strings.IndexByte(xml[i:], '<')
+		if lt < 0 {
+			sb.WriteString(xml[i:])
+			break
+		}
+		sb.WriteString(xml[i : i+lt])
+		gt := strings.IndexByte(xml[i+lt:], '>')
+		if gt < 0 {
+			sb.WriteString(xml[i+lt:])
+			break
+		}
+		tag := xml[i+lt : i+lt+gt+1]
+		if !strings.HasPrefix(tag, "<?") && !strings.HasPrefix(tag, "<!") {
+			tag = strings.Replace(tag, "<"+from+":", "<"+to+":", 1)
+			tag = strings.Replace(tag, "</"+from+":", "</"+to+":", 1)
+			tag = strings.ReplaceAll(tag, " "+from+":", " "+to+":")
+			tag = strings.ReplaceAll(tag, " xmlns:"+from+"=", " xmlns:"+to+"=")
+		}
+		sb.WriteString(tag)
+		i += lt + gt + 1
+	}
+	return sb.String()
 }
